@@ -35,6 +35,36 @@ def queries(tier):
                                 unwind=20, unwind_rules=KIT_RULES, timeout=300,
                                 params={"lemma": "L2 send", "protocol": proto, "remaining_words": nr, "destination": ["pipe0", "pipe1", "unknown id"][dest]}))
     qs += device_queries(tier)
+    qs += xreq_queries(tier)
+    return qs
+
+
+def xreq_queries(tier):
+    """L3: the raw request side (xreq.c, xsurvey.c): backtrace moved to the header on the way up, header+body unchanged on the way down"""
+    qs = []
+    for proto in ("xreq", "xsurv"):
+        d0 = {"XSURV": 1} if proto == "xsurv" else {}
+        nhs = (0, 1, 2, 14, 15, 16) if tier == "quick" else tuple(range(0, 18))
+        for nh in nhs:
+            for term in (1, 0):
+                d = dict(d0)
+                d.update({"MODE": 1, "NH": nh, "TERM": term})
+                qs.append(Query("%s-rx-nh%d-%s" % (proto, nh, "term" if term else "noterm"), "c13/xreq.c", tus=TUS, env=ENV, defs=d,
+                                cdefs=["-DENV_MSG_CAP=80"], unwind=20, unwind_rules=KIT_RULES, timeout=300, group="c13/xreq.c-" + proto,
+                                params={"lemma": "L3 receive", "protocol": proto, "hop_words": nh, "terminator": bool(term)}))
+        for nr in (0, 1, 2, 15, 16):
+            for failtx in (0, 1):
+                d = dict(d0)
+                d.update({"MODE": 2, "NR": nr})
+                if failtx:
+                    d["FAILTX"] = 1
+                qs.append(Query("%s-tx-nr%d%s" % (proto, nr, "-failtx" if failtx else ""), "c13/xreq.c", tus=TUS, env=ENV, defs=d, cdefs=["-DENV_MSG_CAP=80"],
+                                unwind=20, unwind_rules=KIT_RULES, timeout=300, group="c13/xreq.c-" + proto,
+                                params={"lemma": "L3 send", "protocol": proto, "header_words": nr, "transport_send_fails": bool(failtx)}))
+        d = dict(d0)
+        d["MODE"] = 3
+        qs.append(Query("%s-peer-mismatch" % proto, "c13/xreq.c", tus=TUS, env=ENV, defs=d, cdefs=["-DENV_MSG_CAP=80"], unwind=20, unwind_rules=KIT_RULES,
+                        timeout=120, group="~xreq-mismatch", params={"lemma": "peer protocol check", "protocol": proto}))
     return qs
 
 
